@@ -6,6 +6,7 @@ mod c11;
 mod c12;
 mod c13;
 mod c14;
+mod c17;
 mod defs;
 mod enc;
 mod gen;
@@ -37,6 +38,7 @@ fn run_line(state: &mut parse::RunState, request: &str) -> Option<(String, Strin
         Some("NORM") => c11::run_request(&words),
         Some("SPLIT") => c10::run_request(&words),
         Some("CMAP_LOAD") | Some("NORMS") => c12::run_request(state, &words),
+        Some("INITB") | Some("LOADF") => c17::run_request(&words),
         Some("DESER") | Some("TODEF") => c14::run_request(&words),
         Some("DEF") => parse::run_def(state, &words).map(|a| (request.to_string(), a)),
         Some("ENC") | Some("ENC2") | Some("ENC7") | Some("ENC9") | Some("ENC18") | Some("DEC") | Some("BPE") | Some("UNI") | Some("WP") => parse::run_encdec(state, &words),
@@ -50,8 +52,11 @@ fn main() {
         eprintln!("usage: kvh gen <property> <quick|thorough> <seed> <out-prefix> | kvh run <in.ops> <out.ops>");
         std::process::exit(2);
     }
-    util::silence_panics();
+    if std::env::var("KVH_VERBOSE").is_err() {
+        util::silence_panics();
+    }
     match args[1].as_str() {
+        "child-load" => c17::child_main(),
         "gen" => {
             let prop = args[2].as_str();
             let thorough = args[3] == "thorough";
@@ -66,6 +71,7 @@ fn main() {
                 "C10" => c10::gen(&mut rng, thorough, &mut out),
                 "C11" => c11::gen(&mut rng, thorough, &mut out),
                 "C12" => c12::gen(&mut rng, thorough, &mut out),
+                "C17" => c17::gen(&mut rng, thorough, &mut out),
                 "C14" => c14::gen(&mut rng, thorough, &mut out),
                 "C13" => c13::gen(&mut rng, thorough, &mut out),
                 "SMOKE" => smoke::gen(&mut rng, thorough, &mut out),
